@@ -120,13 +120,28 @@ def build_merge_late(recs, delim, probe=None):
 EXOTIC_DELIMS = ["%3A", "%", "%%", "{}", "\\", " ", "é", "a"]   # characters that are special to formatting / escaping / the alphabet itself
 
 
-def units(tier, seed, nchunks=128, hist_depth=None):
+def dip_configs():
+    """CURIE prefixes that contain the delimiter (legal; CURIEs written with them cannot be re-split, URIs still parse)."""
+    return [
+        [mrec("a:b", "x")],
+        [mrec("a", "x"), mrec("a:b", "y")],
+        [mrec("x", "x:"), mrec("x:a", "x:a")],          # nested URI prefixes whose owners are 'x' and 'x:a'
+        [mrec("a", "x", ["a:c"])],
+        [mrec("a:b", "xy", ["A"], ["X"])],
+        [mrec(":", "x")],
+        [mrec("a:", "x"), mrec("", "y")],
+    ]
+
+
+def units(tier, seed, nchunks=128, hist_depth=None, delim_in_prefix=False):
     cfgs = configurations(tier)
     out = [{"tier": tier, "cfgs": [recs_to_json(c) for c in ch]} for ch in chunks(cfgs, nchunks)]
     # a small configuration set under unusual delimiters
     r0, r1, _ = record_pool()
     small = [[r] for r in r0 if "a" not in r.prefix] + [[a, b] for a, b in it.combinations([r for r in r0 if r.prefix in ("", "x") and r.uri_prefix in ("x", "x:", "xy")], 2) if Model([a, b]).valid()]
     out.append({"tier": tier, "cfgs": [recs_to_json(c) for c in small], "delims": EXOTIC_DELIMS, "qlen": 2})
+    if delim_in_prefix:
+        out.append({"tier": tier, "cfgs": [recs_to_json(c) for c in dip_configs()], "delims": DELIMS})
     if hist_depth is None:
         hist_depth = 2
     if hist_depth:
@@ -209,13 +224,30 @@ def run_case(check_config, case, ctx=None):
     recs = rewrite(recs_from_json(case["recs"]), d)
     model = Model(recs, d)
     Q = queries(d, case.get("qlen", 3))
-    modes = [case["mode"]] if case.get("mode") else ["ctor", "merge-late"]
+    modes = [case["mode"]] if case.get("mode") else ["ctor", "merge-late", "chain-of-singletons", "sub-by-synonym"]
     for mode in modes:
         if mode == "merge-late" and not any(r.psyn or r.usyn for r in recs):
             continue
+        if mode in ("chain-of-singletons", "sub-by-synonym"):
+            # derived converters are strict converters too; both operations build their result with the default delimiter
+            if d != ":" or case.get("qlen") or (mode == "chain-of-singletons" and len(recs) < 2) or (mode == "sub-by-synonym" and not any(r.psyn for r in recs)):
+                continue
         where = f"records {recs_to_json(recs)} delimiter {d!r} mode {mode}"
+        inputs = []
         try:
-            conv = Converter([to_record(r) for r in recs], delimiter=d) if mode == "ctor" else build_merge_late(recs, d)
+            if mode == "ctor":
+                conv = Converter([to_record(r) for r in recs], delimiter=d)
+            elif mode == "merge-late":
+                conv = build_merge_late(recs, d)
+            elif mode == "chain-of-singletons":
+                from ..impl import curies as _curies
+
+                inputs = [(Converter([to_record(r)]), Model([r], d)) for r in recs]
+                conv = _curies.chain([c for c, _ in inputs])
+            else:
+                parent = Converter([to_record(r) for r in recs] + [to_record(mrec("zz9", "zz9/"))])
+                inputs = [(parent, Model(recs + [mrec("zz9", "zz9/")], d))]
+                conv = parent.get_subconverter([r.psyn[0] if r.psyn else r.prefix for r in recs])
         except Exception as e:  # noqa
             fails.append(("construction-raises/" + mode, f"{where}: {type(e).__name__}: {e}", mode))
             continue
@@ -226,6 +258,10 @@ def run_case(check_config, case, ctx=None):
                 ctx.count("configurations")
         before = len(fails)
         check_config(conv, model, Q, fails, where, ctx if mode == "ctor" else None)
+        for c_in, m_in in inputs:
+            # the converters the result was derived from still answer for themselves
+            if len(fails) == before:
+                check_config(c_in, m_in, Q[:120], fails, where + " (an input of the derivation, afterwards)", None)
         if ctx is not None and len(fails) == before:
             ctx.count("validated")
         for i in range(before, len(fails)):
